@@ -121,8 +121,7 @@ class Renderer {
         case 'r': {
           rec.r = rec.r || {}
           const it = { v: value }
-          if (a.mp !== undefined) it.mp = a.mp === null ? undefined : this.path(a.mp, ctx)
-          if (a.gp !== undefined) it.gp = a.gp === null ? undefined : this.path(a.gp, ctx)
+          this.lv(a, it, ctx)
           rec.r[a.name] = it
           break
         }
@@ -133,14 +132,14 @@ class Renderer {
         case 'v': {
           rec.v = rec.v || {}
           const it = { v: value, dyn: !!a.dyn }
-          if (a.gp !== undefined) it.gp = a.gp === null ? undefined : this.path(a.gp, ctx)
+          this.lv(a, it, ctx)
           rec.v[`${a.name}|${a.final ? 1 : 0}${a.mutated ? 1 : 0}${a.capture ? 1 : 0}`] = it
           break
         }
         case 'p': case 'l': {
           rec[a.ch] = rec[a.ch] || {}
           const it = { v: value }
-          if (a.gp !== undefined) it.gp = a.gp === null ? undefined : this.path(a.gp, ctx)
+          this.lv(a, it, ctx)
           rec[a.ch][a.name] = it
           break
         }
@@ -149,6 +148,14 @@ class Renderer {
       }
     }
     return rec
+  }
+
+  // `g`: the location the binding's expression reads, in the runtime's general form ([0,...data path] | [1,abs,...] |
+  // [2,file,module,...]); undefined when the expression is not an access chain. `lvc`: a path must be present.
+  lv(a, it, ctx) {
+    if (a.lv === undefined || a.lv === null) return
+    const g = this.path(a.lv, ctx)
+    if (g !== undefined && g !== null) { it.g = g; if (a.lvc) it.lvc = true }
   }
 
   // expected lvalue path: list of segments {k:'lit',v} | {k:'e',e:refjs} | {k:'scope', i} (prefix taken from scope's path)
@@ -175,6 +182,10 @@ class Renderer {
 
   nodes(list, ctx, out) {
     for (const n of list) this.node(n, ctx, out)
+  }
+
+  lpathsOf(file) {
+    return (this.model.files[file].wxs || []).map((w) => w.lpath || null)
   }
 
   lookupTemplate(file, name) {
@@ -272,14 +283,14 @@ class Renderer {
         if (!t) return
         const d = n.data === undefined || n.data === null ? '' : this.ev(n.data, ctx)
         const mods = this.modulesOf(t.file)
-        this.nodes(t.body, { file: t.file, d, s: [...mods], paths: mods.map(() => null) }, out)
+        this.nodes(t.body, { file: t.file, d, s: [...mods], paths: this.lpathsOf(t.file) }, out)
         return
       }
       case 'include': {
         const f = this.model.files[n.path]
         if (!f) return
         const mods = this.modulesOf(n.path)
-        this.nodes(f.body, { file: n.path, d: ctx.d, s: [...mods], paths: mods.map(() => null) }, out)
+        this.nodes(f.body, { file: n.path, d: ctx.d, s: [...mods], paths: this.lpathsOf(n.path) }, out)
         return
       }
       case 'slot': {
@@ -305,6 +316,6 @@ export function refRender(model, entry, D, pool) {
   if (!file) throw new Error('ref: no such file ' + entry)
   const out = []
   const mods = r.modulesOf(entry)
-  r.nodes(file.body, { file: entry, d: D, s: [...mods], paths: mods.map((_, i) => (file.wxs[i].lpath || null)) }, out)
+  r.nodes(file.body, { file: entry, d: D, s: [...mods], paths: r.lpathsOf(entry) }, out)
   return out
 }
